@@ -19,27 +19,51 @@ RUNNER_TARGETS = ["Corr/RunC15.vo"]
 PROOF_TARGETS = ["Props/C15.vo"]
 PROPS_FILE = "Props/C15.v"
 PROPS_MODULE = "Props.C15"
-RULE = ("charts of the five games on a beat grid (so that every writer is exact), 1-3 tempo points on measure lines, SVs for osu/Quaver "
-        "(coincident SVs agree), ties across columns; every list permuted by one of {reverse, shuffle, unsorted append, concatenation of "
-        "halves}; operations: write->read for osu/Quaver/StepMania/BMS, conversions, rate, full_ln, hitsound_copy, dominant_bpm, "
-        "scroll_speed, sv_normalize; non-trivial = some list with >= 2 rows is really reordered; distinct by hash of canonical JSON")
+RULE = ("charts of the five games on a beat grid (so that every writer is exact), 1-3 tempo points on measure lines (120 / 240 / 120 bpm, either "
+        "value can be the dominant one), SVs for osu/Quaver (coincident SVs agree), ties across columns; every list permuted by one of "
+        "{reverse, shuffle, unsorted append, concatenation of halves}; operations: write->read for osu/Quaver/StepMania/BMS, conversions, rate, "
+        "full_ln, hitsound_copy (incl. more named samples of one volume at one time than the target has notes), dominant_bpm, scroll_speed, "
+        "sv_normalize; non-trivial = some list with >= 2 rows is really reordered; distinct by hash of canonical JSON")
 ASSUMPTIONS = [
     "written files are compared through reamber's own readers (the codecs are tied to reference semantics by C01/C03/C05/C06): "
     "read(write(c)) and read(write(permuted c)) must be the same multisets of objects",
-    "hitsound_copy: equal notes, and per time equal multisets of sounds (which of several target notes at one time receives a sound is not promised)",
-    "scroll_speed: two SVs at one time must agree (otherwise the chart's meaning depends on file order in osu! itself); "
-    "full_ln: no two notes at the same time in one column (either processing order is accepted by C17)",
+    "hitsound_copy: equal notes, and per time equal multisets of SOUNDS, a sound being carried by a note OR played as an event sample (which of "
+    "several target notes at one time receives a sound is not promised); the stricter reading 'the notes carry the same sounds, event samples "
+    "compared separately' is NOT demanded: it is false of the routine when named samples of one volume overflow the target's notes "
+    "(C15_hitsound_copy_strict_refuted documents it; what is played at each time is the same, which is what the chart means)",
+    "scroll_speed: two SVs at one time must agree (otherwise the chart's meaning depends on file order in osu! itself); dominant_bpm / timing: no "
+    "two tempo points at one time; full_ln: no two notes at the same time in one column; hitsound_copy: source volumes >= 0 - each side condition "
+    "is shown necessary by a _refuted theorem whose witness was replayed against the real code (same behaviour)",
+    "analysis functions: the models of C19 (Algo/DominantBpm.v, ScrollSpeed.v) are run in Coq on the chart and on the permuted chart and must "
+    "reproduce both implementation outputs (speeds within 1e-9 relative: b/ref*m is not exact in binary64 for override 150); the boolean domain "
+    "of the theorems (Algo/PermDomain.v) is evaluated on every such case (wf)",
 ]
 TRUSTED = ["harness/maps.py, harness/frames.py; reamber's readers as canonicalisers of written files"]
 MANIFEST = dict(
-    text="Coq theorems of permutation invariance for the models that factor through row-wise maps or sorting (rate: scaling a permuted list is "
-         "a permutation of the scaled list; cast/convert: positional copy commutes with permutation; sorted: any two sorts of permuted inputs "
-         "are sorted permutations of each other) plus a metamorphic oracle evaluated in Coq on implementation outputs for every listed "
-         "operation on charts of all five games (f(chart) vs f(permuted chart) as multisets / series / scalars).",
-    note="Partial: permutation invariance of the writers, full_ln, hitsound_copy and the analysis functions is established per run by the "
-         "metamorphic oracle (and for full_ln by C17's all-sorted-orders theorem), not proved as a general theorem here. "
-         "Trusted: Coq kernel+VM, harness, reamber's readers as canonicalisers.",
-    technique="Coq permutation-invariance lemmas + metamorphic oracle evaluated with vm_compute",
+    text="Coq theorems (8.16.1, all closed under the global context) of permutation invariance, FOR ALL INPUTS, of the executable models the other "
+         "properties built and tie to the code: rate / sort / filters / per-column copy (as before); ConvertBase.cast on whole rows (all mapped "
+         "columns at once, any frame, any mapping incl. row-computed value arrays); the timing engine for tempo changes in any row order "
+         "(restating C10's any-order theorem); full_ln (generated hits and holds EQUAL row for row, other lists carried over); dominant_bpm (same "
+         "value), sv_normalize (same SVs), scroll_speed (same breakpoints and speeds in the same order); hitsound_copy (same notes and per time "
+         "the same multiset of sounds on notes or as event samples, for any row order AND any tie order of the two unstable sorts); the osu! "
+         "writer (same head, section by section the same multiset of lines, and the reference denotation reads those sections line by line); "
+         "the Quaver writer (the written document DENOTES, by qua_denote, the same multisets of notes / timing points / SVs and the same metadata); "
+         "the StepMania writer (measure grids identical for every char-stable order of the placed events, row count = capped lcm independent of "
+         "order; on the boolean domain 'one metronome, event times convert to positions' TimingMap.beats is a function of the query time, the "
+         "whole note-data text is identical and the #BPMS tag lists the same beat=bpm pairs). Side conditions are boolean predicates (distinct "
+         "tempo offsets, coincident SVs agree, reduced fractions, distinct (time,column), source volumes >= 0) and each is shown NECESSARY by a "
+         "_refuted theorem (vm_compute witness, replayed against the real code: same behaviour). Plus, per run, the metamorphic oracle evaluated "
+         "in Coq on implementation outputs for every listed operation on charts of all five games (f(chart) vs f(permuted chart) as multisets / "
+         "series / scalars), and for the analysis functions the models run in Coq on both charts with the theorems' boolean domain checked.",
+    note="Oracle-only (not proved here): the BMS writer (its #BPM header takes the FIRST ROW's tempo, #BPMxx numbering and the greedy find_lcm follow "
+         "row order, so only the denotation - not the text - can be invariant; whole-file BMS denotation proofs are C05's open task), float printing "
+         "of every writer (numeric tokens are abstract in the models), the StepMania writer outside the one-metronome domain (TimingMap.beats "
+         "genuinely depends on the other queries there), each converter's list wiring (C08 content oracle). hitsound_copy: the stricter reading "
+         "'the notes carry the same sounds' is refuted (model and real code: which of several overflowing named samples lands on the note follows "
+         "the source's row order) - not demanded by the property (same sounds at every time), the sound-level statement is proved. "
+         "Trusted: Coq kernel+VM, harness, reamber's readers as canonicalisers; the models are tied to the code by C08/C10/C17/C18/C19/C01/C06/C03's "
+         "own correspondence runs (and here again for the analysis functions and rate).",
+    technique="Coq permutation-invariance theorems over the shared models + metamorphic oracle and model correspondence evaluated with vm_compute",
     design="4/C15")
 
 OPS = ["write_read", "write_read", "convert", "rate", "full_ln", "dominant_bpm", "scroll_speed"]
@@ -48,18 +72,25 @@ CONV = {"osu": ["OsuToQua", "OsuToSM", "OsuToBMS"], "qua": ["QuaToOsu", "QuaToSM
 
 
 def _grid_spec(rng, game):
-    """chart on the 1/4-beat grid of 120 bpm (and 240 bpm after measure 2)"""
+    """chart on the 1/4-beat grid: 120 bpm from 0; optionally 240 bpm from measure 1 or 2 (t2) and optionally 120 bpm again two
+    240-bpm measures later (t3) - so that either tempo value can be the dominant one"""
     cls = M.map_class(game)
     m = cls()
     spec = {"game": game, "lists": {}}
-    two = rng.random() < 0.5
+    ntempo = rng.choice([1, 2, 2, 3])
+    two = ntempo >= 2
+    t2 = rng.choice([2000.0, 4000.0])
+    t3 = t2 + 2000.0
     maxcol = 3 if game == "sm" else 6
     used = set()
 
     def t():
-        if two and rng.random() < 0.5:
-            return 4000.0 + rng.randint(0, 31) * 62.5
-        return rng.randint(0, 31) * 125.0
+        u = rng.random()
+        if ntempo == 3 and u < 0.3:
+            return t3 + rng.randint(0, 15) * 125.0
+        if two and u < 0.65:
+            return t2 + rng.randint(0, 63 if ntempo == 2 else 31) * 62.5
+        return rng.randint(0, int(t2 // 125) - 1 if two else 31) * 125.0
     for name, lst in m.objs.items():
         props = lst._item_class()._props
         rows = []
@@ -68,8 +99,12 @@ def _grid_spec(rng, game):
             rows[0].update({"offset": 0.0, "bpm": 120.0, "metronome": 4.0})
             if two:
                 r2 = dict(rows[0])
-                r2.update({"offset": 4000.0, "bpm": 240.0})
+                r2.update({"offset": t2, "bpm": 240.0})
                 rows.append(r2)
+            if ntempo == 3:
+                r3 = dict(rows[0])
+                r3.update({"offset": t3, "bpm": 120.0})
+                rows.append(r3)
         elif name in ("hits", "holds"):
             for _ in range(rng.choice([1, 2, 3, 5] if name == "hits" else [0, 1, 2, 3])):
                 r = {k: M.rand_val(rng, k, v[0]) for k, v in props.items()}
@@ -94,22 +129,47 @@ def _grid_spec(rng, game):
     return spec
 
 
+# operations per game (every operation the property lists; o2j has no writer)
+OPS_EXTRA = {"osu": ["sv_normalize", "sv_normalize", "hitsound_copy", "hitsound_copy", "hitsound_copy"], "qua": ["sv_normalize", "sv_normalize"]}
+
+
+def _crowd(rng, src, tgt):
+    """hitsound_copy: more named samples of ONE volume at one time than the target has notes there (the overflow becomes
+    event samples; which file lands on the note follows the source's row order)"""
+    t = rng.choice([1000.0, 2500.0])
+    base = dict(src["lists"]["hits"]["rows"][0])
+    vol = rng.choice([20, 35, 70])
+    rows = [r for r in src["lists"]["hits"]["rows"] if r["offset"] != t]
+    for col, f in zip(rng.sample(range(7), 3), rng.sample(["x.wav", "y.ogg", "z.wav", "w.wav"], rng.choice([2, 3]))):
+        r = dict(base)
+        r.update({"offset": t, "column": col, "volume": vol, "hitsound_file": f, "hitsound_set": rng.choice([0, 0, 2])})
+        rows.append(r)
+    rng.shuffle(rows)
+    src["lists"]["hits"]["rows"] = rows
+    src["lists"]["holds"]["rows"] = [r for r in src["lists"]["holds"]["rows"] if r["offset"] != t]
+    for k in ("hits", "holds"):
+        tgt["lists"][k]["rows"] = [r for r in tgt["lists"][k]["rows"] if r["offset"] != t]
+    if rng.random() < 0.8:
+        r = dict(base)
+        r.update({"offset": t, "column": rng.randint(0, 6)})
+        tgt["lists"]["hits"]["rows"].append(r)
+
+
 def generate(rng, tier):
     n = 50 if tier == "quick" else 500
     cases = []
     for game in M.GAMES:
         for _ in range(n):
-            ops = list(OPS)
-            if game in ("osu", "qua"):
-                ops += ["sv_normalize", "sv_normalize"]
-            if game == "osu":
-                ops += ["hitsound_copy", "hitsound_copy"]
+            ops = list(OPS) + OPS_EXTRA.get(game, [])
             op = rng.choice(ops)
             if op == "write_read" and game == "o2j":
                 op = "convert"
-            cases.append({"game": game, "op": op, "map": _grid_spec(rng, game), "map2": _grid_spec(rng, game),
-                          "perm": rng.choice(["reverse", "shuffle", "append", "concat"]), "pseed": rng.randint(0, 10 ** 6),
-                          "conv": rng.choice(CONV[game]), "override": rng.choice([None, None, 150.0])})
+            case = {"game": game, "op": op, "map": _grid_spec(rng, game), "map2": _grid_spec(rng, game),
+                    "perm": rng.choice(["reverse", "shuffle", "append", "concat"]), "pseed": rng.randint(0, 10 ** 6),
+                    "conv": rng.choice(CONV[game]), "override": rng.choice([None, None, 150.0])}
+            if op == "hitsound_copy" and rng.random() < 0.4:
+                _crowd(rng, case["map"], case["map2"])
+            cases.append(case)
     return cases
 
 
@@ -193,16 +253,40 @@ def _write_read(game, m, container):
     raise ValueError(game)
 
 
+def _sound_rows(m):
+    """what sounds in a chart, as atoms (time, kind, payload, volume): kind 0 = one hitsound bit, 1 = a named sample,
+    2/3/4 = sample/addition/custom set of a note; returns (atoms carried by notes, atoms played as event samples)"""
+    on_notes = []
+    for k in ("hits", "holds"):
+        df = m.objs[k].df
+        for r in df.itertuples():
+            t, vol, hs = float(r.offset), float(r.volume), int(r.hitsound_set)
+            for b in range(16):
+                if (hs >> b) & 1:
+                    on_notes.append((t, 0, 1 << b, vol))
+            if r.hitsound_file:
+                on_notes.append((t, 1, r.hitsound_file, vol))
+            for kind, v in ((2, r.sample_set), (3, r.addition_set), (4, r.custom_set)):
+                if int(v) != 0:
+                    on_notes.append((t, kind, int(v), vol))
+    events = [(float(r.offset), 1, r.sample_file, float(r.volume)) for r in m.samples.df.itertuples() if r.sample_file]
+    return on_notes, events
+
+
+def _atom_frame(rows, it):
+    return M.snapshot_list(_L(pd.DataFrame(rows, columns=["offset", "kind", "payload", "volume"])), it)
+
+
 def _sounds(m, it):
-    """hitsound_copy result: notes, and per time the multiset of sounds"""
-    notes, sounds = [], []
+    """hitsound_copy result: notes, and per time the multiset of sounds (on a note or as an event sample)"""
+    notes = []
     for k in ("hits", "holds"):
         df = m.objs[k].df
         cols = [c for c in ("offset", "column", "length") if c in df.columns]
         notes.append(M.snapshot_list(_L(df[cols]), it))
-        sounds.append(df[["offset", "hitsound_set", "sample_set", "addition_set", "custom_set", "volume", "hitsound_file"]])
-    snd = pd.concat(sounds, ignore_index=True)
-    return notes + [M.snapshot_list(_L(snd), it), M.snapshot_list(_L(m.samples.df[["offset", "sample_file", "volume"]]), it)]
+    on_notes, events = _sound_rows(m)
+    return {"union": notes + [_atom_frame(on_notes + events, it)],
+            "strict": [_atom_frame(on_notes, it), _atom_frame(events, it)]}
 
 
 def _container(game, m):
@@ -243,7 +327,8 @@ def _apply(case, m, m_other, it):
         return {"t": "lists", "v": _content(full_ln(m, gap=125, ln_as_hit_thres=100), it, ("hits", "holds", "bpms"))}
     if op == "hitsound_copy":
         from reamber.algorithms.osu.hitsound_copy import hitsound_copy
-        return {"t": "lists", "v": _sounds(hitsound_copy(m, m_other), it)}
+        snd = _sounds(hitsound_copy(m, m_other), it)
+        return {"t": "lists", "v": snd["union"], "strict": snd["strict"]}
     if op == "dominant_bpm":
         from reamber.algorithms.utils.dominant_bpm import dominant_bpm
         return {"t": "val", "v": F.frac_json(Fr(float(dominant_bpm(m))))}
@@ -251,12 +336,32 @@ def _apply(case, m, m_other, it):
         from reamber.algorithms.analysis.scroll_speed import scroll_speed
         s = scroll_speed(m, override_bpm=case["override"])
         pairs = [(float(i), float(v)) for i, v in s.items() if v == v]
-        return {"t": "pairs", "v": [[F.frac_json(Fr(a)), F.frac_json(Fr(b))] for a, b in pairs]}
+        full = [[F.frac_json(Fr(float(i))), (F.frac_json(Fr(float(v))) if v == v else None)] for i, v in s.items()]
+        return {"t": "pairs", "v": [[F.frac_json(Fr(a)), F.frac_json(Fr(b))] for a, b in pairs], "full": full}
     if op == "sv_normalize":
         from reamber.algorithms.generate.sv_normalize import sv_normalize
         r = sv_normalize(m, override_bpm=case["override"])
-        return {"t": "lists", "v": [M.snapshot_list(_L(r.df[["offset", "multiplier"]]), it)]}
+        return {"t": "lists", "v": [M.snapshot_list(_L(r.df[["offset", "multiplier"]]), it)],
+                "full": [[F.frac_json(Fr(float(o))), F.frac_json(Fr(float(x)))] for o, x in zip(r.offset.tolist(), r.multiplier.tolist())]}
     raise ValueError(op)
+
+
+ANALYSIS = ("dominant_bpm", "scroll_speed", "sv_normalize")
+
+
+def _model_chart(m):
+    """what dominant_bpm / scroll_speed / sv_normalize look at (Algo/DominantBpm.v chart): tempo rows, SV rows (None when the
+    game has no svs list) and the offsets of the rows of every other list, all in ROW ORDER"""
+    fr = lambda x: F.frac_json(Fr(float(x)))
+    bp = [[fr(o), fr(b)] for o, b in zip(m.bpms.df["offset"].tolist(), m.bpms.df["bpm"].tolist())]
+    sv = None
+    if "svs" in m.objs:
+        sv = [[fr(o), fr(x)] for o, x in zip(m.objs["svs"].df["offset"].tolist(), m.objs["svs"].df["multiplier"].tolist())]
+    notes = []
+    for k, lst in m.objs.items():
+        if k not in ("bpms", "svs"):
+            notes += [fr(o) for o in lst.df["offset"].tolist()]
+    return {"bpms": bp, "svs": sv, "notes": notes}
 
 
 def execute(case):
@@ -276,7 +381,19 @@ def execute(case):
     if case["op"] == "rate":
         out["src_a"] = _content(m, it)
         out["src_b"] = _content(mp, it)
+    if case["op"] in ANALYSIS:
+        out["chart_a"], out["chart_b"] = _model_chart(m), _model_chart(mp)
     return out
+
+
+def _q(p):
+    return F.q(F.frac_from_json(p))
+
+
+def _chart_coq(ch):
+    pairs = lambda l: F.lst([f"({_q(a)},{_q(b)})" for a, b in l])
+    svs = "None" if ch["svs"] is None else f"(Some {pairs(ch['svs'])})"
+    return f"(mkChart {pairs(ch['bpms'])} {svs} {F.lst([_q(x) for x in ch['notes']])})"
 
 
 def emit_all(case, out):
@@ -289,6 +406,21 @@ def emit_all(case, out):
         terms.append(f"CSamePairs {f(a['v'])} {f(b['v'])}")
     else:
         terms.append(f"CSameVal {F.q(F.frac_from_json(a['v']))} {F.q(F.frac_from_json(b['v']))}")
+    # (the stricter reading "the NOTES carry the same sounds, event samples compared separately" is not a term: the property
+    #  speaks of what the chart means - the sounds played at each time - and C15_hitsound_copy_strict_refuted documents that
+    #  the stricter reading is false of the routine when named samples overflow the target's notes)
+    if "chart_a" in out:
+        # model-level tie + the theorem's boolean domain + its conclusion on the implementation's two outputs
+        ca, cb, op = _chart_coq(out["chart_a"]), _chart_coq(out["chart_b"]), case["op"]
+        ov = "None" if case["override"] is None else f"(Some {F.q(Fr(case['override']))})"
+        if op == "dominant_bpm":
+            terms.append(f"CDomPerm {ca} {cb} (Some {_q(a['v'])}) (Some {_q(b['v'])})")
+        elif op == "scroll_speed":
+            rows = lambda v: F.lst([f"({_q(t)},{'None' if x is None else '(Some ' + _q(x) + ')'})" for t, x in v])
+            terms.append(f"CScrollPerm {ca} {cb} {ov} (Some {rows(a['full'])}) (Some {rows(b['full'])})")
+        else:
+            rows = lambda v: F.lst([f"({_q(t)},{_q(x)})" for t, x in v])
+            terms.append(f"CNormPerm {ca} {cb} {ov} (Some {rows(a['full'])}) (Some {rows(b['full'])})")
     if "src_a" in out:
         terms.append(f"CRatePerm 2 {F.lst([M.ulist_coq(s) for s in out['src_a']])} {F.lst([M.ulist_coq(s) for s in out['src_b']])}")
     return terms
